@@ -142,7 +142,7 @@ def main():
         else:
             na.append(dict(property_id=pid, reason=PENDING.get(pid, "check not built yet in this development (model/theorems under construction); not claimed")))
     m = dict(version=1,
-             setup_cmd="python3 harness/mk_coqproject.py && cd coq && coq_makefile -f _CoqProject -o Makefile && make -j16",
+             setup_cmd="python3 harness/mk_coqproject.py && cd coq && coq_makefile -f _CoqProject -o Makefile && (make -j16 -k || echo 'some Coq files did not build: the checks that need them will report it')",
              hooks=dict(guard="CONDREWARDS_VERIF", enable="no hooks are needed: the checks observe the public API only",
                         baseline_off_cmd=BASELINE, source_commits=[], add_only=True),
              engines=[dict(name="coq-model+correspondence", path="coq/ harness/ check",
